@@ -116,7 +116,7 @@ PROPS = {
             regress("C07"),
             {"run": "^TestRefSelf$", "quick": 300, "thorough": 3000, "single": True},
             {"run": "^TestC07$", "quick": 400, "thorough": 2000},
-            {"run": "^TestC07Repetitive$", "quick": 25, "thorough": 300},
+            {"run": "^TestC07Repetitive$", "quick": 25, "thorough": 60},
         ],
     },
     "C08": {
